@@ -53,6 +53,37 @@ func authValues(dt rscp.DataType) []interface{} {
 
 func init() {
 	streams["auth"] = func(g *gen, cw *caseWriter, n int, thorough bool) {
+		// credentials around the size an authentication request can carry: it is transmitted exactly, or not at all
+		for _, l := range []int{1, 300, 65499, 65500, 65501, 65510, 65536, 65541, 70000, 131072} {
+			for _, longUser := range []bool{false, true} {
+				user, pw := "u", strings.Repeat("p", l)
+				if longUser {
+					user, pw = strings.Repeat("u", l), "p"
+				}
+				s, err := newSession(user, pw, "authkey", 120*time.Millisecond, 1)
+				if err != nil {
+					continue
+				}
+				c := &callSpec{kind: "S", dialOk: true, writeOk: true, reqs: g.nonceRequest(0)}
+				c.auth = frameReply([]rscp.Message{{Tag: rscp.RSCP_AUTHENTICATION, DataType: rscp.UChar8, Value: uint8(10)}})
+				c.user = frameReply(replyFor(c.reqs, 0))
+				r := s.call(c)
+				prop := "pass"
+				wantAuth := msgsString([]rscp.Message{{Tag: rscp.RSCP_REQ_AUTHENTICATION, DataType: rscp.Container, Value: []rscp.Message{
+					{Tag: rscp.RSCP_AUTHENTICATION_USER, DataType: rscp.CString, Value: user}, {Tag: rscp.RSCP_AUTHENTICATION_PASSWORD, DataType: rscp.CString, Value: pw}}}})
+				if i := strings.Index(r, "sent 0 "); i >= 0 {
+					first := r[i+7:]
+					if j := strings.Index(first, " , "); j >= 0 {
+						first = first[:j]
+					}
+					if first != wantAuth {
+						prop = "FAIL C09 the first frame on the connection is not the authentication request with exactly the configured user name and password: " + trunc(first, 100)
+					}
+				}
+				s.close()
+				cw.add(fmt.Sprintf("hist %s %s | %s", hexOf([]byte(user)), hexOf([]byte(pw)), c.op()), r, fmt.Sprintf("N auth credentials-length=%d", l), prop)
+			}
+		}
 		tags := []rscp.Tag{rscp.RSCP_AUTHENTICATION, rscp.RSCP_USER_LEVEL, rscp.RSCP_GENERAL_ERROR, rscp.RSCP_REQ_AUTHENTICATION, 0x00800099, 0xFFFFFFFF}
 		grant := []rscp.Message{{Tag: rscp.RSCP_AUTHENTICATION, DataType: rscp.UChar8, Value: uint8(10)}}
 		for _, tag := range tags {
